@@ -124,8 +124,13 @@ def c04_action(a):
 
 def c04_params(desc):
     layers = []
+    # keys outside defsrc (desc["unmapped"], only meaningful with process-unmapped-keys yes): documented as
+    # passing through unchanged, or as a no-op on every layer with block-unmapped-keys yes (docs: block-unmapped-keys)
+    unm = desc.get("unmapped", [])
+    block = desc.get("defcfg", {}).get("block-unmapped-keys", "no") == "yes"
     for layer in desc["layers"]:
-        layers.append([{"c": code(k), "a": c04_action(layer.get(k, {"t": "trans"}))} for k in desc["keys"]])
-    return {"layers": layers, "src": [{"c": code(k), "kc": code(k)} for k in desc["keys"]],
+        layers.append([{"c": code(k), "a": c04_action(layer.get(k, {"t": "trans"}))} for k in desc["keys"]] +
+                      [{"c": code(k), "a": {"t": "xx"} if block else {"t": "trans"}} for k in unm])
+    return {"layers": layers, "src": [{"c": code(k), "kc": code(k)} for k in list(desc["keys"]) + list(unm)],
             "trans_v2": desc.get("defcfg", {}).get("transparent-key-resolution", "layer-stack") != "to-base-layer",
             "delegate": desc.get("defcfg", {}).get("delegate-to-first-layer", "no") == "yes"}
